@@ -33,10 +33,13 @@ def _reuse(src_uid):
     def _u(ctx, src=src):
         src.run(ctx)
         ctx.adopt_engine_obligations()
+        unit_replay = next((o.replay for o in ctx.obligations if o.replay), None)
         keep = []
         n_paths = 0
         for o in ctx.obligations:
             if o.kind in ("cover", "canary") or "/no-raise" in o.name:
+                if o.replay is None and unit_replay is not None and "/no-raise" in o.name:
+                    o.replay = dict(unit_replay, no_exception=True)
                 keep.append(o)
             else:
                 n_paths += 1
